@@ -39,6 +39,8 @@ struct SpecObs {
     cost: Vec<Vec<u64>>,
     /// expected e-matching results (spec/EMatch.tla): per pattern the orbit-least ground matches
     #[serde(default)]
+    leaf: Vec<Vec<String>>,
+    #[serde(default)]
     mt: Vec<Vec<[usize; 3]>>,
     #[serde(default = "yes")]
     nored: bool,
@@ -65,6 +67,13 @@ trait AnKind: Analysis<T> + Default + 'static {
     const NAME: &'static str;
     fn datum(eg: &EGraph<T, Self>, id: Id) -> Option<(u64, u64)>;
     fn multi(eg: &EGraph<T, Self>, pat: &MultiPattern<T>) -> Option<Vec<Subst>>;
+    fn leaves(_: &EGraph<T, Self>, _: Id) -> Option<BTreeSet<String>> { None }
+}
+impl AnKind for Leaves {
+    const NAME: &'static str = "leaf-operators";
+    fn datum(_: &EGraph<T, Leaves>, _: Id) -> Option<(u64, u64)> { None }
+    fn multi(_: &EGraph<T, Leaves>, _: &MultiPattern<T>) -> Option<Vec<Subst>> { None }
+    fn leaves(eg: &EGraph<T, Leaves>, id: Id) -> Option<BTreeSet<String>> { Some(eg.analysis_data(id).clone()) }
 }
 impl AnKind for () {
     const NAME: &'static str = "unit";
@@ -181,6 +190,10 @@ struct PathRun<'a> {
     mode: &'a str,
     /// compare the complete match sets with the specification's (first path of a state/naming only)
     full_match: bool,
+    /// observe nothing between the calls of the history (only after the last one): every query canonicalises what
+    /// it touches (path compression), so a history that is watched after every call never has a stale union-find
+    /// chain when the next call arrives
+    quiet: bool,
     findings: Vec<Finding>,
     stats: Stats,
 }
@@ -297,6 +310,11 @@ impl<'a> PathRun<'a> {
                     return None;
                 }
             };
+            if self.quiet && step + 1 < path.len() {
+                handles.push((ctx.pool_ui[a - 1], ia));
+                handles.push((ctx.pool_ui[b - 1], ib));
+                continue;
+            }
             // C02: the asserted pair itself is equal as soon as union returns
             match guard(|| eg.eq(&ia, &ib)) {
                 Ok(true) => {}
@@ -644,6 +662,18 @@ impl<'a> PathRun<'a> {
                 self.finding("C14", "panic reading analysis data", key, path, step, "", json!({"term": ctx.us[i].show()}));
                 return;
             };
+            if let Ok(Some(ls)) = guard(|| N::leaves(eg, id)) {
+                // join-semilattice analysis in which every e-node contributes: set of leaf operators
+                if spec.leaf.is_empty() { return; }
+                self.stats.data += 1;
+                let want: BTreeSet<String> = spec.leaf[spec.lab[i] - 1].iter().cloned().collect();
+                if ls != want {
+                    self.finding("C14", "analysis datum is not the join of make over the e-nodes of the class (leaf operators)", key, path, step, "",
+                        json!({"term": ctx.us[i].show(), "impl": ls, "spec": want}));
+                    return;
+                }
+                continue;
+            }
             let Some((size, depth)) = d else { return };
             self.stats.data += 1;
             let want = (spec.cost[0][i], spec.cost[3][i]);
@@ -1098,8 +1128,8 @@ fn main() {
                                 // when the first term that mentions it is inserted
                                 let lazy = kind == "fresh-lazy";
                                 let nm_path = if lazy { Naming::new(&kind, ctx2.uni.n) } else { nm.clone() };
-                                let mut pr = PathRun { ctx: &ctx2, nm: &nm_path, us_exprs: &us_exprs, pool_exprs: &pool_exprs, lazy, mode, full_match: count == 1, findings: Vec::new(), stats: Stats::default() };
-                                let fp = if count % 2 == 0 { pr.run::<()>(&path) } else { pr.run::<SizeDepth>(&path) };
+                                let mut pr = PathRun { ctx: &ctx2, nm: &nm_path, us_exprs: &us_exprs, pool_exprs: &pool_exprs, lazy, mode, full_match: count == 1, quiet: count % 4 == 3, findings: Vec::new(), stats: Stats::default() };
+                                let fp = match count % 3 { 0 => pr.run::<()>(&path), 1 => pr.run::<SizeDepth>(&path), _ => pr.run::<Leaves>(&path) };
                                 stats.paths += pr.stats.paths;
                                 stats.steps += pr.stats.steps;
                                 stats.panics += pr.stats.panics;
